@@ -54,17 +54,19 @@ SCOPES = {
     "detector": (["instrument", "detector", "detector.full_name", "detector.name_in_raft", "detector.raft", "detector.purpose"],
                  [("data_ids:detector", ["instrument", "detector"]), ("records:detector", ["instrument", "detector"])]),
     "flat": (["instrument", "detector", "detector.full_name", "detector.raft", "detector.purpose"],
-             [("datasets:flat", ["run", "instrument", "detector"])]),
+             [("datasets:flat", ["run", "instrument", "detector"]), ("dsdata:flat", ["instrument", "detector"])]),
     "visit": (["instrument", "visit", "visit.name", "physical_filter", "band", "day_obs", "visit.seq_num", "visit.exposure_time",
                "visit.target_name", "visit.science_program", "visit.zenith_angle", "visit.timespan"],
               [("data_ids:visit", ["instrument", "visit"]), ("records:visit", ["instrument", "visit"])]),
     "vimg": (["instrument", "visit", "band", "visit.seq_num", "visit.exposure_time", "visit.timespan"],
-             [("datasets:vimg", ["run", "instrument", "visit"])]),
+             [("datasets:vimg", ["run", "instrument", "visit"]), ("dsdata:vimg", ["instrument", "visit"])]),
     "exposure": (["instrument", "exposure", "exposure.obs_id", "physical_filter", "band", "day_obs", "group", "exposure.seq_num",
                   "exposure.exposure_time", "exposure.dark_time", "exposure.target_name", "exposure.science_program",
                   "exposure.observation_type", "exposure.can_see_sky", "exposure.has_simulated", "exposure.timespan"],
                  [("data_ids:exposure", ["instrument", "exposure"]), ("records:exposure", ["instrument", "exposure"])]),
-    "visit_detector": (["instrument", "detector", "visit", "detector.raft", "visit.seq_num", "band", "detector.purpose"],
+    # no `band` here: with target {instrument, detector} the query is extended by the band dimension alone (all bands of
+    # the repository), not through visit - which joins are made is C06's subject
+    "visit_detector": (["instrument", "detector", "visit", "detector.raft", "visit.seq_num", "detector.purpose"],
                        [("data_ids:visit_detector", ["instrument", "visit", "detector"]), ("data_ids:visit", ["instrument", "visit"]),
                         ("data_ids:detector", ["instrument", "detector"])]),
 }
@@ -215,7 +217,32 @@ class IllTyped(Exception):
 # always comes from the documented reading, QUIRKS empty): a wrong result that one of these readings reproduces gets that
 # reading's name in its signature, anything else is "unexplained".
 QUIRKS: frozenset = frozenset()
-ALL_QUIRKS = ("null-span-bound", "quot-range", "time-in", "legacy-stride", "legacy-null-cmp")
+ALL_QUIRKS = ("null-span-bound", "quot-range", "time-in", "legacy-stride", "legacy-null-cmp", "legacy-negated-governor")
+RUN_GOVERNORS = {"r1": {"Cam"}, "r2": {"Cam"}, "rO": {"Oth"}, "rm": {"Cam", "Oth"}}   # instruments in each RUN's summary
+
+
+def negated_governors(e, under_not=False):
+    """instrument values v that occur as `instrument = v` under a NOT (or in NOT IN): the legacy interface prunes the
+    collections whose summary lacks v, as if the constraint were positive"""
+    out = set()
+    k = e[0]
+    if k == "not":
+        return negated_governors(e[1], not under_not)
+    if k in ("and", "or"):
+        return negated_governors(e[1], under_not) | negated_governors(e[2], under_not)
+    def val(x):
+        v = x[1] if x[0] == "lit" else x[2] if x[0] == "bind" else None
+        return v[1] if v and v[0] == "str" else None
+    if k == "cmp" and e[1] == "=" and under_not:
+        for a, b in ((e[2], e[3]), (e[3], e[2])):
+            if a[0] == "col" and a[1] == "instrument" and val(b) is not None:
+                out.add(val(b))
+    if k == "in" and e[1][0] == "col" and e[1][1] == "instrument" and (e[3] != under_not):
+        for it in e[2]:
+            if it[0] in ("lit", "bind") and val(it) is not None:
+                out.add(val(it))
+    return out
+
 
 
 def _tmod(a, b):
@@ -451,6 +478,10 @@ def ccol(key):
 def cexpr(e):
     k = e[0]
     if k == "lit":
+        v = e[1]
+        if v[0] in ("int", "real") and v[1] < 0:
+            # a negative numeric literal in expression position is a unary minus applied to a literal in the parse tree
+            return f"(ENeg (ELit ({cval([v[0], -v[1]] + v[2:])})))"
         return f"(ELit ({cval(e[1])}))"
     if k == "bind":
         return f"(ELit ({cval(e[2])}))"
@@ -629,7 +660,11 @@ class Gen:
                 elif q < 0.82 and self.cols(t):
                     items.append(self.col(r.choice(self.cols(t))))
                 else:
-                    items.append(self.maybe_bind(self.vlit(t, key)))
+                    it = self.maybe_bind(self.vlit(t, key))
+                    if it[0] == "lit" and it[1][0] in ("int", "real") and it[1][1] < 0:
+                        self.nb += 1
+                        it = ["bind", f"b{self.nb}", it[1], True]     # signed literals of an IN list go through a bind
+                    items.append(it)
             return ["in", member, items, r.random() < 0.3]
         if m < 0.82:          # NULL tests
             ks = [k for k in self.keys if k != "instrument"]
@@ -670,6 +705,9 @@ def expected(e, rows, keycols, quirks=frozenset()):
     global QUIRKS
     QUIRKS = frozenset(quirks)
     try:
+        if "legacy-negated-governor" in QUIRKS:
+            g = negated_governors(e)
+            rows = [r for r in rows if "run" not in r or g <= RUN_GOVERNORS.get(r["run"], set())]
         return sorted({tuple(r[k] for k in keycols) for r in rows if o_eval(e, r) is True}, key=_sk)
     finally:
         QUIRKS = frozenset()
@@ -724,14 +762,37 @@ def cnf_shape(e):
 
 
 def with_instrument(r, e, scope):
+    """governor constraint + expression.  The dataset scopes (and sometimes the others) also get NEGATED governor
+    constraints (NOT (instrument = v), NOT IN, !=, literal or bind, alone or under NOT (.. OR ..)): the constraint summary
+    that prunes the collections of a dataset search must not read them as positive constraints"""
     m = r.random()
-    if scope == "detector" and m < 0.1:
-        pre, legacy_ok = ["cmp", "=", ["col", "instrument", "instrument"], ["lit", ["str", "Oth"]]], True
-    elif m < 0.2 and scope in ("detector", "visit", "exposure"):
-        pre = ["in", ["col", "instrument", "instrument"], [["lit", ["str", "Cam"]], ["lit", ["str", "Oth"]]], False]
-        legacy_ok = False
+    I = ["col", "instrument", r.choice(SPELL["instrument"][:1])]
+    two = scope in ("detector", "visit", "flat", "vimg")          # candidate sets with rows of both instruments
+    pneg = 0.6 if scope in ("flat", "vimg") else 0.12
+    if two and m < pneg:
+        v = r.choice(["Cam", "Oth", "Oth", "Zzz"])
+        lit = ["lit", ["str", v]] if r.random() < 0.7 else ["bind", f"g{r.randrange(1000)}", ["str", v], r.random() < 0.7]
+        q = r.randrange(6)
+        if q == 0:
+            pre = ["not", ["cmp", "=", I, lit]]
+        elif q == 1:
+            pre = ["in", I, [lit], True]
+        elif q == 2:
+            pre = ["cmp", "!=", I, lit]
+        elif q == 3:
+            return ["not", ["or", ["cmp", "=", I, lit], e]], True       # NOT (instrument = v OR e)
+        elif q == 4:
+            pre = ["not", ["cmp", "=", lit, I]]
+        else:
+            pre = ["in", I, [["lit", ["str", v]], ["lit", ["str", "Zzz"]]], True]
+        return (pre, True) if r.random() < 0.25 else (["and", pre, e], True)
+    if two and m < pneg + 0.1:
+        pre, legacy_ok = ["cmp", "=", I, ["lit", ["str", "Oth"]]], True
+    elif m > 0.9 and scope in ("detector", "visit", "exposure", "flat", "vimg"):
+        pre = ["in", I, [["lit", ["str", "Cam"]], ["lit", ["str", "Oth"]]], False]
+        legacy_ok = True
     else:
-        pre, legacy_ok = ["cmp", "=", ["col", "instrument", r.choice(SPELL["instrument"][:1])], ["lit", ["str", "Cam"]]], True
+        pre, legacy_ok = ["cmp", "=", I, ["lit", ["str", "Cam"]]], True
     return ["and", pre, e], legacy_ok
 
 
@@ -764,6 +825,18 @@ def fixed_cases():
     # known findings, in isolation
     add("detector", ["in", ["arith", "/", D(), ["lit", ["int", 2]]], [["range", 1, 2, None]], False], "quot-range")
     add("visit", ["tin", ["begin", ["col", "visit.timespan", "visit.timespan"]], ["lit", ["time", T0 + 100]], ["lit", ["time", T0 + 300]], False], "time-in")
+    # negated governor constraints in dataset searches over per-instrument RUNs (seeded change C05a)
+    Ic = ["col", "instrument", "instrument"]
+
+    def raw(scope, e, name):
+        out.append({"scope": scope, "expr": e, "name": name, "wt": True, "legacy": True})
+    raw("flat", ["not", ["cmp", "=", Ic, ["lit", ["str", "Cam"]]]], "not-governor-eq")
+    raw("flat", ["in", Ic, [["lit", ["str", "Cam"]]], True], "governor-not-in")
+    raw("flat", ["cmp", "!=", Ic, ["lit", ["str", "Cam"]]], "governor-ne")
+    raw("flat", ["not", ["or", ["cmp", "=", Ic, ["lit", ["str", "Cam"]]], ["cmp", "=", D(), ["lit", ["int", 2]]]]], "not-governor-or")
+    raw("flat", ["and", ["not", ["cmp", "=", Ic, ["bind", "inst", ["str", "Oth"], False]]], ["cmp", ">", D(), ["lit", ["int", 0]]]], "not-governor-bind")
+    raw("vimg", ["and", ["not", ["cmp", "=", Ic, ["lit", ["str", "Oth"]]]], ["cmp", "<", ["col", "visit.seq_num", "visit.seq_num"], ["lit", ["int", 1]]]], "not-governor-vimg")
+    raw("vimg", ["not", ["cmp", "!=", Ic, ["lit", ["str", "Oth"]]]], "not-governor-ne")
     # ill-typed: must be rejected cleanly, and the model must agree on that
     add("detector", ["cmp", "=", D(), ["lit", ["real", 5, 2]]], "int-vs-float", wt=False)
     add("detector", ["in", D(), [["range", 5, 3, None]], False], "inverted-range", wt=False)
@@ -779,7 +852,7 @@ ILL = [  # (scope, expr) deliberately ill-typed variants generated on top of a w
 def make_cases(ctx, tables, n_expr):
     r = ctx.rng
     cases = fixed_cases()
-    scopes = ["detector"] * 4 + ["visit"] * 4 + ["exposure"] * 3 + ["visit_detector"] * 2 + ["flat", "vimg"]
+    scopes = ["detector"] * 4 + ["visit"] * 4 + ["exposure"] * 3 + ["visit_detector"] * 2 + ["flat"] * 3 + ["vimg"] * 2
     while len(cases) < n_expr:
         scope = r.choice(scopes)
         g = Gen(r, scope, tables)
@@ -838,8 +911,10 @@ def expand(cases):
 def run(ctx: Ctx):
     frag = VERIF / "known_findings.d" / "C05.json"
     if frag.exists():
-        have = {k["id"] for k in ctx.known}
-        ctx.known += [k for k in json.loads(frag.read_text()) if k.get("property") == "C05" and k["id"] not in have]
+        # the fragment is this property's source of truth (known_findings.json is assembled from the fragments and may lag)
+        mine = [k for k in json.loads(frag.read_text()) if k.get("property") == "C05"]
+        ids = {k["id"] for k in mine}
+        ctx.known = [k for k in ctx.known if k["id"] not in ids] + mine
     ctx.assumptions += [
         "SQLite's expression semantics (NULL propagation, Kleene AND/OR/NOT, BETWEEN, IN, CAST-to-integer truncated %, "
         "NULL for a zero divisor, BINARY string collation) are modelled in Model/SqlExpr.v seval and compared with the real "
@@ -910,6 +985,8 @@ def run_batch(ctx: Ctx, n_expr, tag="gen"):
     ctx.log(f"{tag}: {len(cases)} expressions ({ncorp} corpus), {len(qs)} implementation queries")
 
     coq_cases, coq_meta = [], []
+    sum_cases, sum_meta = [], []
+    DIMCOL = {"instrument": 0, "detector": 1, "visit": 10, "physical_filter": 12, "band": 13, "day_obs": 14, "exposure": 30, "group": 42}
     for q, res in zip(qs, results):
         c = cases[q["ci"]]
         rows = tables[c["scope"]]
@@ -963,6 +1040,16 @@ def run_batch(ctx: Ctx, n_expr, tag="gen"):
         elif api == "new" and not c["wt"]:
             # ill-typed but accepted: nothing the property states; the model must still agree on acceptance + rows
             ctx.hist("outcome", "new:ill-typed-accepted")
+        if api == "new" and "cdi_err" in res:
+            ctx.tie_broken("correspondence", "constraint-summary", f"{q['where']}: {res['cdi_err']}")
+        if api == "new" and "cdi" in res:
+            if all(k in DIMCOL for k, _ in res["cdi"]):
+                obs = clist(f"({DIMCOL[k]}%N, {cval_py(v)})" for k, v in res["cdi"])
+                sum_cases.append(f"(({cexpr(c['expr'])}, {obs}) : expr * list (col * value))")
+                sum_meta.append(dict(replay, constraint_data_id=res["cdi"]))
+                ctx.hist("constraint_keys", len(res["cdi"]))
+            else:
+                ctx.tie_broken("correspondence", "constraint-summary", f"unknown key in constraint_data_id {res['cdi']} for {q['where']}")
         if api == "new":
             keys = clist(ckey(k) for k in got)
             coq_cases.append(f"(({_tname(c['scope'])}, {clist(str(COLS[k][0]) + '%N' for k in q['keycols'])}, {cexpr(c['expr'])}, Some {keys}) : case)")
@@ -996,6 +1083,12 @@ def run_batch(ctx: Ctx, n_expr, tag="gen"):
             ctx.disagreement(name, {"where": m["where"], "bind": m["bind"], "target": m["target"], "coq": coq_cases[i][:300]},
                              "model (conv -> Predicate -> SQL) and implementation return different rows" if chk == "chk_case"
                              else "SQL path and documented meaning differ on an expression Coq types as well-typed")
+    bad_sum = ctx.coq_cases(f"{tag}_summary", hdr, sum_cases, "chk_summary", shard=400, timeout=900)
+    for i in (bad_sum or [])[:5]:
+        m = sum_meta[i]
+        ctx.disagreement(f"{tag}_summary", {"where": m["where"], "bind": m["bind"], "target": m["target"],
+                                            "constraint_data_id": m["constraint_data_id"]},
+                         "PredicateConstraintsSummary.constraint_data_id differs from the model's summary of the same predicate")
     return True
 
 
